@@ -412,7 +412,7 @@ pub fn monitor(prop: &str, c: &SimCase) -> Vec<Finding> {
         Ok(t) => t.clone(),
         Err(m) => {
             if prop == "C19" {
-                let known = if m.contains("divide by zero") && c.pps.map_or(false, |p| (p as u64) % (1u64 << 32) == 0 && p != 0) { Some("F9") } else { None };
+                let known = None;
                 out.push(Finding { known, msg: format!("sim_advanced panicked: {}", m) });
             }
             return out;
